@@ -12,8 +12,8 @@ package vh
 import (
 	"encoding/json"
 	"fmt"
-	"sort"
 	"os"
+	"sort"
 	"strings"
 	"testing"
 	"time"
@@ -33,7 +33,7 @@ const c02xRule = "TestC02Faults: directory store, no collection policy; request 
 func c02xProperty(t *rapid.T, st *Stats, owner string) {
 	tmp := mkTemp("c02x")
 	defer os.RemoveAll(tmp)
-	steps := c12fHistory(t)
+	steps := c12fHistoryOpt(t, rapid.Bool().Draw(t, "epilogue"))
 	trace := []string{}
 	fail := func(key, f string, a ...any) { Fail(t, st, key, fmt.Sprintf(f, a...), trace, nil) }
 	conf := func(root string) config.Config { return baseConf(config.StoreDir, root) }
@@ -50,6 +50,7 @@ func c02xProperty(t *rapid.T, st *Stats, owner string) {
 	}
 	total, totalReads := vfs.MutCount(), vfs.ReadCount()
 	indexReads := c12fReadOrdinals(vfs.Log(), root0, "/index.json")
+	probeReads := c12fReadOrdinals(vfs.Log(), root0, "probes")
 	_ = h0.Close()
 	if total == 0 {
 		st.Case([]string{"history without mutating call"}, false)
@@ -62,9 +63,15 @@ func c02xProperty(t *rapid.T, st *Stats, owner string) {
 		limit = totalReads
 	}
 	k := rapid.IntRange(1, limit).Draw(t, "faultAt")
-	if readFault && len(indexReads) > 0 && rapid.Bool().Draw(t, "readOfIndexJSON") {
-		// half of the reading faults go to the file everything else hangs on (uniform over its reads)
-		k = rapid.SampledFrom(indexReads).Draw(t, "indexRead")
+	if readFault && len(indexReads) > 0 && len(probeReads) > 0 {
+		// a third of the reading faults goes to the opens of the file everything else hangs on, a third to the probes
+		// the store makes when it meets a repository (uniform within the class), a third anywhere
+		switch rapid.IntRange(0, 2).Draw(t, "readClass") {
+		case 1:
+			k = rapid.SampledFrom(indexReads).Draw(t, "indexRead")
+		case 2:
+			k = rapid.SampledFrom(probeReads).Draw(t, "probeRead")
+		}
 	}
 	k2 := 0
 	if !readFault && rapid.IntRange(0, 3).Draw(t, "secondFault") == 0 {
